@@ -1209,7 +1209,9 @@ impl TensorChain {
     /// # Errors
     /// Returns an error if the rollback fails.
     pub fn rollback(&self, workspace: &Arc<TransactionWorkspace>) -> Result<()> {
-        workspace.rollback(self.graph.store())?;
+        // Operations are only recorded in the workspace; restoring the begin-time
+        // checkpoint here would wipe blocks committed by other workspaces since.
+        workspace.abandon()?;
         self.tx_manager.remove(workspace.id());
         Ok(())
     }
